@@ -344,7 +344,7 @@ fn th_sweep_managed(args: &Args, rep: &mut Report, prop: &'static str) {
     }
 }
 
-fn th_chaos_managed(args: &Args, rep: &mut Report, prop: &'static str, runs: u64) {
+fn th_chaos_managed(args: &Args, rep: &mut Report, prop: &'static str, runs: u64, hammer: bool) {
     use th::managed::*;
     let seed = args.seed;
     // chaos runs use several threads each: run a few at a time
@@ -364,8 +364,14 @@ fn th_chaos_managed(args: &Args, rep: &mut Report, prop: &'static str, runs: u64
                 close: matches!(prop, "C06") || (with_limit_ops && rng.chance(1, 4)),
                 retain_take: prop != "C06" || rng.chance(1, 2),
                 p_fail: *rng.pick(&[0u32, 5, 20, 40]),
+                hammer,
             };
-            let out = run_chaos(prop, cfg, seed.wrapping_mul(7919).wrapping_add(i));
+            let cfg = if hammer { ChaosCfg { threads: rng.range(4, 24) as usize, ops: rng.range(100, 600) as usize, max_size: rng.range(1, 4) as usize, ..cfg } } else { cfg };
+            let mut out = run_chaos(prop, cfg, seed.wrapping_mul(7919).wrapping_add(i));
+            if hammer {
+                // no trace at full speed: a case is identified by its configuration and what was observed
+                out.trace_hash = vh_common::fnv1a(format!("{:?}/{}/{}/{}", cfg, out.events, out.end_state, i).as_bytes());
+            }
             cov.evaluations += 1;
             cov.events += out.events;
             let _ = cov.distinct.insert(out.trace_hash);
@@ -380,7 +386,7 @@ fn th_chaos_managed(args: &Args, rep: &mut Report, prop: &'static str, runs: u64
             }
             if let Some(v) = out.violations.first() {
                 if finds.len() < 4 {
-                    finds.push(Finding { v: v.clone(), sig: format!("{}/th_chaos/{}", prop, v.oracle), replay: out.desc.clone() });
+                    finds.push(Finding { v: v.clone(), sig: format!("{}/{}/{}", prop, if hammer { "th_hammer" } else { "th_chaos" }, v.oracle), replay: out.desc.clone() });
                 }
             } else if cov.samples.is_empty() && out.nontrivial {
                 cov.sample(out.desc);
@@ -390,7 +396,7 @@ fn th_chaos_managed(args: &Args, rep: &mut Report, prop: &'static str, runs: u64
         (cov, finds)
     });
     for (cov, finds) in outs {
-        rep.engine("th_chaos").merge(cov);
+        rep.engine(if hammer { "th_hammer" } else { "th_chaos" }).merge(cov);
         rep.add_findings(finds);
     }
 }
@@ -464,7 +470,7 @@ fn th_sweep_unmanaged(args: &Args, rep: &mut Report, prop: &'static str) {
     }
 }
 
-fn th_chaos_unmanaged(args: &Args, rep: &mut Report, prop: &'static str, runs: u64) {
+fn th_chaos_unmanaged(args: &Args, rep: &mut Report, prop: &'static str, runs: u64, hammer: bool) {
     use th::unmanaged::*;
     let seed = args.seed;
     let jobs = (args.jobs / 4).max(1);
@@ -478,7 +484,11 @@ fn th_chaos_unmanaged(args: &Args, rep: &mut Report, prop: &'static str, runs: u
             let ops = rng.range(20, 150) as usize;
             let max_size = rng.range(0, 4) as usize;
             let with_close = prop == "C12" || rng.chance(1, 10);
-            let out = run_uchaos(prop, threads, ops, max_size, with_close, seed.wrapping_mul(7919).wrapping_add(i));
+            let (threads, ops, max_size) = if hammer { (rng.range(4, 32) as usize, rng.range(100, 800) as usize, rng.range(1, 8) as usize) } else { (threads, ops, max_size) };
+            let mut out = run_uchaos(prop, threads, ops, max_size, with_close, seed.wrapping_mul(7919).wrapping_add(i), hammer);
+            if hammer {
+                out.trace_hash = vh_common::fnv1a(format!("{}/{}/{}/{}/{}/{}", threads, ops, max_size, out.events, out.end_state, i).as_bytes());
+            }
             cov.evaluations += 1;
             cov.events += out.events;
             let _ = cov.distinct.insert(out.trace_hash);
@@ -493,7 +503,7 @@ fn th_chaos_unmanaged(args: &Args, rep: &mut Report, prop: &'static str, runs: u
             }
             if let Some(v) = out.violations.first() {
                 if finds.len() < 4 {
-                    finds.push(Finding { v: v.clone(), sig: format!("{}/uth_chaos/{}", prop, v.oracle), replay: out.desc.clone() });
+                    finds.push(Finding { v: v.clone(), sig: format!("{}/{}/{}", prop, if hammer { "uth_hammer" } else { "uth_chaos" }, v.oracle), replay: out.desc.clone() });
                 }
             } else if cov.samples.is_empty() && out.nontrivial {
                 cov.sample(out.desc);
@@ -503,7 +513,7 @@ fn th_chaos_unmanaged(args: &Args, rep: &mut Report, prop: &'static str, runs: u
         (cov, finds)
     });
     for (cov, finds) in outs {
-        rep.engine("uth_chaos").merge(cov);
+        rep.engine(if hammer { "uth_hammer" } else { "uth_chaos" }).merge(cov);
         rep.add_findings(finds);
     }
 }
@@ -517,7 +527,7 @@ fn sanitizer_workload(args: &Args, prop: &'static str) -> i32 {
     for i in 0..n {
         let seed = args.seed.wrapping_mul(31).wrapping_add(i);
         if matches!(prop, "C05" | "C12") {
-            let out = th::unmanaged::run_uchaos(prop, 3, if big { 60 } else { 7 }, (seed % 3) as usize, prop == "C12" || seed % 4 == 0, seed);
+            let out = th::unmanaged::run_uchaos(prop, 3, if big { 60 } else { 7 }, (seed % 3) as usize, prop == "C12" || seed % 4 == 0, seed, false);
             runs += 1;
             for v in &out.violations {
                 println!("VIOLATION-CANDIDATE property={} sig={}/san/uth_chaos/{} replay=- :: {} :: {}", prop, prop, v.oracle, v.oracle, v.msg);
@@ -533,6 +543,7 @@ fn sanitizer_workload(args: &Args, prop: &'static str) -> i32 {
                 close: prop == "C06",
                 retain_take: true,
                 p_fail: 25,
+                hammer: false,
             };
             let out = th::managed::run_chaos(prop, cfg, seed);
             runs += 1;
@@ -606,7 +617,10 @@ fn main() {
                 th_sweep_unmanaged(&args, &mut rep, prop);
             }
             if args.engine_enabled("uth_chaos") {
-                th_chaos_unmanaged(&args, &mut rep, prop, sc(150.0, 3000.0));
+                th_chaos_unmanaged(&args, &mut rep, prop, sc(150.0, 3000.0), false);
+            }
+            if args.engine_enabled("uth_hammer") {
+                th_chaos_unmanaged(&args, &mut rep, prop, sc(250.0, 6000.0), true);
             }
         }
         "C03" => {
@@ -648,7 +662,10 @@ fn main() {
                     th_sweep_managed(&args, &mut rep, prop);
                 }
                 if args.engine_enabled("th_chaos") {
-                    th_chaos_managed(&args, &mut rep, prop, sc(150.0, 3000.0));
+                    th_chaos_managed(&args, &mut rep, prop, sc(150.0, 3000.0), false);
+                }
+                if args.engine_enabled("th_hammer") {
+                    th_chaos_managed(&args, &mut rep, prop, sc(250.0, 6000.0), true);
                 }
             }
         }
